@@ -177,6 +177,10 @@ impl NestedLoopSemiJoinExecutor {
 
     /// Expand the left row to a chunk with given length.
     fn left_row_to_chunk(&self, row: &RowRef<'_>, len: usize) -> DataChunk {
+        if self.left_types.is_empty() {
+            // a row without columns still expands to `len` rows
+            return DataChunk::no_column(len);
+        }
         self.left_types
             .iter()
             .zip(row.values())
